@@ -62,7 +62,12 @@ def run(chk):
         def one(pr):
             pp, op = chk.path("m_%s_%s.in" % (c, pr["id"])), chk.path("m_%s_%s.out" % (c, pr["id"]))
             vlib.write_ndjson(pp, [pr])
-            vlib.harness("mutate", "--curve", c, "--programs", pp, "--n", n, "--seed", chk.seed, "--out", op)
+            try:
+                vlib.harness("mutate", "--curve", c, "--programs", pp, "--n", n, "--seed", chk.seed, "--out", op)
+            except vlib.Aborted as e:
+                # the process itself died (e.g. an allocation sized from a count in the input): that is the property's "runaway memory / abort"
+                return {"n": 0, "decoded": 0, "bad": [{"i": "abort", "what": "%s while decoding: %s" % (e, e.stderr.strip().splitlines()[0] if e.stderr.strip() else ""),
+                                                       "bytes": e.case, "site": "decode-abort"}]}
             return vlib.read_ndjson(op)[0]
 
         with cf.ThreadPoolExecutor(max_workers=8) as ex:
